@@ -3,6 +3,7 @@ package harness
 import (
 	"os/exec"
 	"syscall"
+	"time"
 )
 
 func setpgid(cmd *exec.Cmd) { cmd.SysProcAttr = &syscall.SysProcAttr{Setpgid: true} }
@@ -12,3 +13,5 @@ func killpg(cmd *exec.Cmd) {
 		syscall.Kill(-cmd.Process.Pid, syscall.SIGKILL)
 	}
 }
+
+func timeAfter() <-chan time.Time { return time.After(10 * time.Second) }
